@@ -9,7 +9,7 @@ muts = [json.loads(l) for l in open(os.path.join(mdir, 'mutants.jsonl'))]
 muts = [m for m in muts if m['file'] != 'types/entry.go' and m['op'] not in ('if-true', 'if-false') and m['file'] != 'config.go']
 # tests already known to pass for mutants that survived an earlier (partial) run
 prior = {}
-for pf in ('/verif/mutation/results-partial-old-binary.jsonl',):
+for pf in ('/verif/mutation/results-partial-old-binary.jsonl', '/verif/mutation/results-run2.jsonl'):
     if os.path.exists(pf):
         for l in open(pf):
             try:
